@@ -53,8 +53,10 @@ def pair_scenario(rng, eb, eo):
     cmds = mk(0, eb, b"b") + mk(1, eo, b"o")
     obs = [False] * len(cmds)
     body = ["dump 0", "dump 1", "merge 2 0 1", "getall 2", "dump 2", "dump 0", "dump 1", "write 2"]
-    return Scenario(cmds + body, obs + [False, False, True, True, False, False, False, True],
-                    tags=("pair",))
+    bobs = [False, False, True, True, False, False, False, True]
+    if rng.random() < 0.06:
+        body += ["merge 3 0 0", "getall 3", "dump 0"]; bobs += [True, True, False]      # the same object in both roles
+    return Scenario(cmds + body, obs + bobs, tags=("pair",))
 
 def oracle(s, ilines):
     # inputs unchanged: dumps of object 0 and 1 before and after the merge
@@ -66,7 +68,7 @@ def oracle(s, ilines):
     return None
 
 def rand_entries(rng):
-    n = rng.choice([0, 0, 1, 2, 3, 4, 5, 6, 9])
+    n = rng.choice([0, 0, 1, 2, 3, 4, 5, 6, 9, 9, 17, 33])          # also beyond the 8 pre-allocated entries and their doublings
     es = []
     g = rng.choice(GROUPS)
     for _ in range(n):
